@@ -18,8 +18,8 @@ __CPROVER_ensures(__CPROVER_return_value.len > 0 ==> (__CPROVER_same_object(__CP
 /* no leading / trailing blank */
 __CPROVER_ensures(__CPROVER_return_value.len > 0 ==> (!SP(__CPROVER_return_value.data[0]) && !SP(__CPROVER_return_value.data[__CPROVER_return_value.len - 1])))
 /* ... and only blanks were dropped in front of it and behind it */
-__CPROVER_ensures((__CPROVER_return_value.len > 0 && 0 <= gk_lead && gk_lead < __CPROVER_POINTER_OFFSET(__CPROVER_return_value.data)) ==> SP(in->data[gk_lead]))
-__CPROVER_ensures((__CPROVER_return_value.len > 0 && gk_trail >= __CPROVER_POINTER_OFFSET(__CPROVER_return_value.data) + __CPROVER_return_value.len && gk_trail < in->len) ==> SP(in->data[gk_trail]))
+__CPROVER_ensures((__CPROVER_return_value.len > 0 && 0 <= gk_lead && gk_lead < in->len && gk_lead < (int)__CPROVER_POINTER_OFFSET(__CPROVER_return_value.data)) ==> SP(in->data[gk_lead]))
+__CPROVER_ensures((__CPROVER_return_value.len > 0 && 0 <= gk_trail && gk_trail < in->len && gk_trail >= (int)__CPROVER_POINTER_OFFSET(__CPROVER_return_value.data) + __CPROVER_return_value.len) ==> SP(in->data[gk_trail]))
 __CPROVER_ensures((__CPROVER_return_value.len == 0 && 0 <= gk_lead && gk_lead < in->len) ==> SP(in->data[gk_lead]))
 ;
 
